@@ -581,7 +581,7 @@ impl Life {
         };
         match name {
             // {1,2} and {3} in two partitions of one deadline
-            "one-deadline" | "one-deadline-aged" | "one-deadline-aged-debt" | "one-deadline-aged-f12" | "one-deadline-aged-pc" => {
+            "one-deadline" | "one-deadline-aged" | "one-deadline-aged-debt" | "one-deadline-aged-f12" | "one-deadline-aged-pc" | "one-deadline-aged-wound-debt" => {
                 commit(&[1, 2, 3], d0, now + 80);
             }
             // proven sectors whose latest PoSt carried an invalid proof; its deadline has just closed
@@ -700,6 +700,43 @@ impl Life {
             assert!(r.ok(), "SETUP-FAILED consensus fault report: {}", r.tree());
             let v = view(vm, cast.m).unwrap();
             assert!(self.cfg.poor.is_none() || v.st.fee_debt.is_positive(), "SETUP-FAILED: the poor miner should be in fee debt");
+        }
+        if name.contains("-wound") {
+            // default behaviour until every sector has expired and the deadline cron has wound down
+            // (only a miner without vesting funds gets there: the poor regime)
+            for _ in 0..120 {
+                let v = view(vm, cast.m).unwrap();
+                if !v.st.deadline_cron_active {
+                    break;
+                }
+                if v.dl_info.open == vm.epoch() {
+                    let parts = Self::default_post_parts(&v);
+                    if !parts.is_empty() {
+                        let r = submit_post(vm, cast.w, cast.m, v.dl_info.index, &parts, false);
+                        if r.ok() {
+                            Self::model_post(&mut m, &v, v.dl_info.index, &parts, vm.epoch());
+                        }
+                    }
+                }
+                let pre = view(vm, cast.m).unwrap();
+                let di = pre.dl_info;
+                Self::bystander_posts(vm, cast).expect("SETUP-FAILED bystander PoSt");
+                let r = vm.tick();
+                assert!(r.flat().iter().all(|i| i.ok()), "SETUP-FAILED tick: {}", r.tree());
+                if vm.epoch() - 1 == di.last() && pre.st.deadline_cron_active && di.period_started() {
+                    let post = view(vm, cast.m).unwrap();
+                    self.model_deadline_end(&mut m, &pre, &post, di.index, di.last(), &vm.policy).expect("SETUP-FAILED deadline end in base recipe");
+                }
+            }
+            assert!(!view(vm, cast.m).unwrap().st.deadline_cron_active, "SETUP-FAILED: the deadline cron did not wind down");
+            // the debt is repaid (with change to spare) so that a new commitment is one deviation away
+            let r = repay_debt(vm, cast.o, cast.m, &fil(100));
+            assert!(r.ok(), "SETUP-FAILED debt repayment: {}", r.tree());
+            // let a few idle epochs pass: the record must not depend on restarting at once
+            for _ in 0..7 {
+                let r = vm.tick();
+                assert!(r.flat().iter().all(|i| i.ok()), "SETUP-FAILED tick: {}", r.tree());
+            }
         }
         m.end = vm.epoch() + self.cfg.horizon.unwrap_or(self.cfg.periods * 24);
         m
